@@ -1,14 +1,22 @@
 import AsynqModel.Sexp
 import AsynqModel.Lib.Cache
+import AsynqModel.Lib.CacheFam
 /-! driver glue for mode `cache` (property C13)
 
-  (case cache <id> alru <maxsize> <default|const|sumParity|raw> <sig>)
-  (case cache <id> perinst <sig>)
+  (case cache <id> alru <maxsize> <default|const|sumParity|raw> <sig> <sig>..)   one <sig> per function decorated by the
+  (case cache <id> perinst <sig> <sig>..)                                         ONE decorator object (function 0, 1, ..)
   (case cache <id> lazy <ttl> <t0>)
   <sig> = ((args..) (defaults..) (kwonly..) ((name default)..))
   (obs <op> <res> <runs> <extra>)
-  <op>  = (call <inst> (args..) ((name value)..) <raises> <dur> <selfref>) | (drop <inst>) | (dirty) | (tick <d>)
-          (<selfref> = the value the body returns refers to the instance; per-instance cases only, optional, default 0)
+  <op>  = (call <inst> (args..) ((name value)..) <raises> <dur> <selfref> <fn>) | (drop <inst>) | (dirty <fn>) | (tick <d>)
+          (<selfref> = the value the body returns refers to the instance; per-instance cases only, optional, default 0;
+           <fn> = which of the decorated functions, optional, default 0)
+  <runs> = body runs of the called function so far (drop: of all methods together)
+  <extra> = per-instance: entries of the called method's dict (drop: of all methods together); lazy: the clock
+  The models run are the families of Lib/CacheFam.lean (with one function they are the models of Lib/Cache.lean).
+
+  (case cache <id> recur <alru|perinst> <maxsize>)        a cached function whose body calls ITSELF (fib): nested calls
+  (obs (top <n>) <value> <runs>)                           judged by a direct expectation (`fibCall` below), no theorem
   <res> = (ok <stamp> (args..)) | (okNone) | (raisedUser <n>) | (raisedType) | (raisedOther <name>) | (unit)
 -/
 namespace AsynqModel.Drv.Cache
@@ -43,18 +51,21 @@ def res? : Sexp → Option Res
 
 /-- the generic wire operation -/
 inductive WOp where
-  | call (inst : Nat) (c : Call) (raises : Bool) (dur : Nat) (selfRef : Bool)
+  | call (inst : Nat) (c : Call) (raises : Bool) (dur : Nat) (selfRef : Bool) (fn : Nat)
   | drop (inst : Nat)
-  | dirty
+  | dirty (fn : Nat)
   | tick (d : Nat)
 
 def wop? : Sexp → Option WOp
   | .list [.atom "call", i, a, kw, r, d] => do
-    some (.call (← i.nat?) { args := (← a.natList?), kwargs := (← pairs? kw) } (← r.bool?) (← d.nat?) false)
+    some (.call (← i.nat?) { args := (← a.natList?), kwargs := (← pairs? kw) } (← r.bool?) (← d.nat?) false 0)
   | .list [.atom "call", i, a, kw, r, d, sr] => do
-    some (.call (← i.nat?) { args := (← a.natList?), kwargs := (← pairs? kw) } (← r.bool?) (← d.nat?) (← sr.bool?))
+    some (.call (← i.nat?) { args := (← a.natList?), kwargs := (← pairs? kw) } (← r.bool?) (← d.nat?) (← sr.bool?) 0)
+  | .list [.atom "call", i, a, kw, r, d, sr, f] => do
+    some (.call (← i.nat?) { args := (← a.natList?), kwargs := (← pairs? kw) } (← r.bool?) (← d.nat?) (← sr.bool?) (← f.nat?))
   | .list [.atom "drop", i] => i.nat?.map .drop
-  | .list [.atom "dirty"] => some .dirty
+  | .list [.atom "dirty"] => some (.dirty 0)
+  | .list [.atom "dirty", f] => f.nat?.map .dirty
   | .list [.atom "tick", d] => d.nat?.map .tick
   | _ => none
 
@@ -89,62 +100,113 @@ def answer (id : Nat) (model impl : List Obs) (spec specm : String) (hyp : Bool)
 
 def unparsable (id : Nat) : String := s!"R {id} CORR=diff SPEC=ok SPECM=ok | unparsable case"
 
-def handleAlru (id cap : Nat) (ks : KeySpec) (s : Sig) (lines : List (WOp × Obs)) : String :=
+def sigAt (sigs : List Sig) (f : Nat) : Sig := sigs.getD f default
+
+/-- `hyp`: inside the hypotheses of C13_alru_shared_decorator_refines / _keyfn (with one function: C13_alru_refines / _keyfn) -/
+def handleAlru (id cap : Nat) (ks : KeySpec) (sigs : List Sig) (lines : List (WOp × Obs)) : String :=
   match lines.mapM (fun (l : WOp × Obs) => match l.1 with
-      | .call _ c r _ _ => some ({ c := c, raises := r } : Alru.Op) | _ => none) with
+      | .call _ c r _ _ f => some ({ fn := f, op := { c := c, raises := r } } : Alru.Fam.Op) | _ => none) with
   | none => unparsable id
   | some ops =>
     let impl := lines.map (·.2)
-    let mk := alruKey ks s
-    let rk := alruRefKey ks s
-    let bd := alruBind s
-    let model := Alru.run mk bd (Alru.init cap) ops
-    let sp := Alru.specClause rk bd cap ops impl
-    let callsOK := ks != .default || ops.all fun op => alruCallOK s op.c
+    let mk := fun f => alruKey ks (sigAt sigs f)
+    let rk := fun f => alruRefKey ks (sigAt sigs f)
+    let bd := fun f => alruBind (sigAt sigs f)
+    let model := Alru.Fam.run mk bd (Alru.Fam.init cap) ops
+    let sp := Alru.Fam.specClause rk bd cap ops impl
+    let callsOK := ks != .default || ops.all fun o => alruCallOK (sigAt sigs o.fn) o.op.c
     let hyp := decide (1 ≤ cap) && callsOK
-    answer id model impl (clauseStr sp) (clauseStr (Alru.specClause rk bd cap ops model)) hyp (!callsOK)
+    answer id model impl (clauseStr sp) (clauseStr (Alru.Fam.specClause rk bd cap ops model)) hyp (!callsOK)
 
-def handlePerInst (id : Nat) (s : Sig) (lines : List (WOp × Obs)) : String :=
+/-- `hyp`: inside the hypotheses of C13_per_instance_shared_decorator_refines_partial -/
+def handlePerInst (id : Nat) (sigs : List Sig) (lines : List (WOp × Obs)) : String :=
   match lines.mapM (fun (l : WOp × Obs) => match l.1 with
-      | .call i c r _ sr => some (PerInst.Op.call i c r sr) | .drop i => some (.drop i) | _ => none) with
+      | .call i c r _ sr f => some (PerInst.Fam.Op.call f i c r sr) | .drop i => some (.drop i) | _ => none) with
   | none => unparsable id
   | some ops =>
     let impl := lines.map (·.2)
-    let mk := perInstKey s
-    let rk := perInstRefKey s
-    let bd := perInstBind s
-    let model := PerInst.run mk bd PerInst.init ops
-    let callsOK := ops.all fun op => match op with | .call _ c _ _ => perInstCallOK s c | .drop _ => true
-    let hyp := callsOK && PerInst.noSelfRef ops
-    let sp := PerInst.specClause rk bd ops impl
-    -- the observations are exactly those of the model, which keeps the entry of a dropped instance that one of its
-    -- own cached values refers to: the recorded defect, told apart from every other way of failing `instances`
-    let tag := if sp == some .instances && !PerInst.noSelfRef ops && model == impl then "+cached-value-refers-to-instance" else ""
-    answer id model impl (clauseStr sp ++ tag) (clauseStr (PerInst.specClause rk bd ops model)) hyp (!callsOK)
+    let nfn := sigs.length
+    let mk := fun f => perInstKey (sigAt sigs f)
+    let rk := fun f => perInstRefKey (sigAt sigs f)
+    let bd := fun f => perInstBind (sigAt sigs f)
+    let model := PerInst.Fam.run nfn mk bd PerInst.Fam.init ops
+    let callsOK := ops.all fun op => match op with | .call f _ c _ _ => perInstCallOK (sigAt sigs f) c | .drop _ => true
+    let hyp := callsOK && PerInst.Fam.noSelfRef ops
+    let sp := PerInst.Fam.specClause nfn rk bd ops impl
+    -- the observations are exactly those of the model, which keeps the entries of a dropped instance that a value
+    -- cached by one of the methods refers to: the recorded defect, told apart from every other way of failing `instances`
+    let tag := if sp == some .instances && !PerInst.Fam.noSelfRef ops && model == impl then "+cached-value-refers-to-instance" else ""
+    answer id model impl (clauseStr sp ++ tag) (clauseStr (PerInst.Fam.specClause nfn rk bd ops model)) hyp (!callsOK)
 
+/-- `hyp`: inside the hypotheses of C13_lazy_shared_decorator_refines -/
 def handleLazy (id ttl t0 : Nat) (lines : List (WOp × Obs)) : String :=
   match lines.mapM (fun (l : WOp × Obs) => match l.1 with
-      | .call _ _ r d _ => some (Lazy.Op.call r d) | .dirty => some .dirty | .tick d => some (.tick d) | _ => none) with
+      | .call _ _ r d _ f => some (Lazy.Fam.Op.call f r d) | .dirty f => some (.dirty f) | .tick d => some (.tick d)
+      | _ => none) with
   | none => unparsable id
   | some ops =>
     let impl := lines.map (·.2)
-    let model := Lazy.run ttl (Lazy.init t0) ops
-    answer id model impl (clauseStr (Lazy.specClause ttl t0 ops impl)) (clauseStr (Lazy.specClause ttl t0 ops model))
+    let model := Lazy.Fam.run ttl (Lazy.Fam.init t0) ops
+    answer id model impl (clauseStr (Lazy.Fam.specClause ttl t0 ops impl)) (clauseStr (Lazy.Fam.specClause ttl t0 ops model))
       (decide (1 ≤ t0))
+
+/-! ### a cached function that calls itself (direct expectation, no theorem)
+
+  `@alru_cache(maxsize) @asynq() def fib(n): if n < 2: return n; a = yield fib.asynq(n - 1); b = yield fib.asynq(n - 2);
+  return a + b`: the nested calls run to completion INSIDE the outer call's miss (after its lookup, before its store).
+  Expected value and number of body runs of every top-level call, computed with the model's `LRU.getItem`/`setItem`
+  (the `stamp` field of a stored `Val` carries the number).  For acached_per_instance the dict is unbounded. -/
+
+def fibBase (k : Nat) (s : LRU × Nat) : Nat × (LRU × Nat) :=
+  match s.1.getItem [.val k] with
+  | some (v, c') => (v.stamp, (c', s.2))
+  | none => (k, (s.1.setItem [.val k] ⟨k, []⟩, s.2 + 1))
+
+def fibCall : Nat → LRU × Nat → Nat × (LRU × Nat)
+  | 0, s => fibBase 0 s
+  | 1, s => fibBase 1 s
+  | n + 2, s =>
+    match s.1.getItem [.val (n + 2)] with
+    | some (v, c') => (v.stamp, (c', s.2))                  -- try: return cache[key]
+    | none =>                                                -- except KeyError: the body runs, and calls itself twice
+      let r1 := fibCall (n + 1) (s.1, s.2 + 1)
+      let r2 := fibCall n r1.2
+      (r1.1 + r2.1, (r2.2.1.setItem [.val (n + 2)] ⟨r1.1 + r2.1, []⟩, r2.2.2))
+
+def handleRecur (id cap : Nat) (body : List Sexp) : String :=
+  let tops : Option (List (Nat × Nat × Nat)) := body.mapM fun
+    | .list [.atom "obs", .list [.atom "top", n], v, r] => do some ((← n.nat?), (← v.nat?), (← r.nat?))
+    | _ => none
+  match tops with
+  | none => unparsable id
+  | some tops =>
+    let rec go (s : LRU × Nat) (i : Nat) : List (Nat × Nat × Nat) → Option String
+      | [] => none
+      | (n, v, r) :: rest =>
+        let e := fibCall n s
+        if e.1 == v && e.2.2 == r then go e.2 (i + 1) rest
+        else some s!"top-level call {i} fib({n}): expected value {e.1} after {e.2.2} body runs, got value {v} after {r}"
+    match go ({ cap := cap, items := [] }, 0) 0 tops with
+    | none => s!"R {id} CORR=ok SPEC=ok SPECM=ok | direct-expectation"
+    | some d => s!"R {id} CORR=diff SPEC=fail:self-recursive-calls SPECM=ok | direct-expectation {d}"
 
 /-- `hdr` = arguments of the case line after the id; `body` = the observation lines -/
 def handle (id : Nat) (hdr : List Sexp) (body : List Sexp) : String :=
+  match hdr with
+  | [.atom "recur", .atom "alru", cap] => match cap.nat? with | some cap => handleRecur id cap body | none => unparsable id
+  | [.atom "recur", .atom "perinst", _] => handleRecur id 1000000000 body
+  | _ =>
   match body.mapM line? with
   | none => unparsable id
   | some lines =>
     match hdr with
-    | [.atom "alru", cap, ks, s] =>
-      match cap.nat?, keySpec? ks, sig? s with
-      | some cap, some ks, some s => handleAlru id cap ks s lines
+    | .atom "alru" :: cap :: ks :: s :: ss =>
+      match cap.nat?, keySpec? ks, (s :: ss).mapM sig? with
+      | some cap, some ks, some sigs => handleAlru id cap ks sigs lines
       | _, _, _ => unparsable id
-    | [.atom "perinst", s] =>
-      match sig? s with
-      | some s => handlePerInst id s lines
+    | .atom "perinst" :: s :: ss =>
+      match (s :: ss).mapM sig? with
+      | some sigs => handlePerInst id sigs lines
       | none => unparsable id
     | [.atom "lazy", ttl, t0] =>
       match ttl.nat?, t0.nat? with
